@@ -21,12 +21,17 @@ use std::sync::{Arc, Mutex};
 
 pub trait HProblem: Problem<Objective = SingleObjective> + ObjectiveFunction + Clone + Send + Sync + 'static {
     fn instr(&self) -> &Arc<Instr>;
+    fn with_instr(self, instr: Arc<Instr>) -> Self;
     fn pure(&self, s: &Self::Encoding) -> f64;
     fn key(s: &Self::Encoding) -> String;
 }
 impl HProblem for RealP {
     fn instr(&self) -> &Arc<Instr> {
         &self.instr
+    }
+    fn with_instr(mut self, instr: Arc<Instr>) -> Self {
+        self.instr = instr;
+        self
     }
     fn pure(&self, s: &Vec<f64>) -> f64 {
         self.f(s)
@@ -39,6 +44,10 @@ impl HProblem for BinP {
     fn instr(&self) -> &Arc<Instr> {
         &self.instr
     }
+    fn with_instr(mut self, instr: Arc<Instr>) -> Self {
+        self.instr = instr;
+        self
+    }
     fn pure(&self, s: &Vec<bool>) -> f64 {
         self.f(s)
     }
@@ -49,6 +58,10 @@ impl HProblem for BinP {
 impl HProblem for TspP {
     fn instr(&self) -> &Arc<Instr> {
         &self.instr
+    }
+    fn with_instr(mut self, instr: Arc<Instr>) -> Self {
+        self.instr = instr;
+        self
     }
     fn pure(&self, s: &Vec<usize>) -> f64 {
         self.f(s)
@@ -285,11 +298,83 @@ where
     }))
 }
 
-#[derive(Clone, Debug, PartialEq)]
+#[derive(Clone)]
 pub enum EvKind {
     Sequential,
     /// dedicated pool of k threads, free running
     Parallel(usize),
+    /// shared pool; completion order of every evaluation step chosen by the explorer (K_ORDER)
+    Gated(Arc<rayon::ThreadPool>, usize, Arc<Mutex<Vec<String>>>),
+}
+
+#[derive(Clone, Copy, Debug, PartialEq)]
+pub enum RngKind {
+    /// scripted backend driven by the tape explorer
+    Scripted,
+    /// mahf's default backend with this seed
+    Real(u64),
+}
+
+#[derive(Clone)]
+pub struct RunOpts {
+    pub ev: EvKind,
+    pub rng: RngKind,
+    /// run a `clone()` of the configuration instead of the configuration itself
+    pub cloned: bool,
+}
+
+/// Evaluator for whole runs under the completion-order gate: every evaluation step of at most
+/// `threads` (and at most 4) individuals is evaluated by mahf's `Parallel` on a dedicated pool while
+/// this thread enforces the completion order chosen by the explorer.
+pub struct GatedEval<P: HProblem> {
+    pub pool: Arc<rayon::ThreadPool>,
+    pub threads: usize,
+    pub gate: crate::engine::gate::Gate,
+    pub errors: Arc<Mutex<Vec<String>>>,
+    pub _p: std::marker::PhantomData<fn() -> P>,
+}
+impl<P: HProblem + Sync> Evaluate for GatedEval<P>
+where
+    Parallel<P>: Evaluate<Problem = P>,
+{
+    type Problem = P;
+    fn evaluate(&mut self, problem: &P, state: &mut State<P>, individuals: &mut [Individual<P>]) {
+        let n = individuals.len();
+        if n == 0 || n > self.threads || n > 4 {
+            self.pool.install(|| Parallel::<P>::new().evaluate(problem, state, individuals));
+            return;
+        }
+        let perms = crate::engine::util::permutations(n);
+        let k = crate::engine::tape::choose(crate::engine::tape::K_ORDER, perms.len() as u32) as usize;
+        let order = perms[k].clone();
+        *problem.instr().ids.lock().unwrap() = individuals.iter().map(|i| P::key(i.solution())).collect();
+        self.gate.set_active(true);
+        let gate = self.gate.clone();
+        let pool = self.pool.clone();
+        let mut err = None;
+        std::thread::scope(|s| {
+            let h = s.spawn(move || pool.install(|| Parallel::<P>::new().evaluate(problem, state, individuals)));
+            match gate.wait_arrived(n) {
+                Ok(_) => {
+                    for id in &order {
+                        gate.release(*id);
+                        if let Err(e) = gate.wait_done(*id) {
+                            err = Some(e);
+                            break;
+                        }
+                    }
+                }
+                Err(e) => err = Some(e),
+            }
+            gate.set_active(false);
+            if h.join().is_err() {
+                err = Some("evaluation thread panicked".to_string());
+            }
+        });
+        if let Some(e) = err {
+            self.errors.lock().unwrap().push(e);
+        }
+    }
 }
 
 #[derive(Clone, Debug)]
@@ -354,6 +439,7 @@ pub trait AnySpec: Send + Sync {
     fn name(&self) -> String;
     fn template(&self) -> &'static str;
     fn run(&self, flags: Flags, ev: &EvKind) -> RunOutcome;
+    fn run_with(&self, flags: Flags, opts: &RunOpts) -> RunOutcome;
     /// RON export of the configuration (C15)
     fn ron(&self) -> Result<String, String>;
     fn ron_of_clone(&self) -> Result<String, String>;
@@ -374,12 +460,26 @@ where
         (self.make)(cond)
     }
     pub fn run_full(&self, flags: Flags, ev: &EvKind, extra: Option<StepObserver<P>>) -> (RunOutcome, Option<State<'static, P>>, P) {
-        let problem = (self.problem)();
+        self.run_opts(flags, &RunOpts { ev: ev.clone(), rng: RngKind::Scripted, cloned: false }, extra)
+    }
+    pub fn run_opts(&self, flags: Flags, opts: &RunOpts, extra: Option<StepObserver<P>>) -> (RunOutcome, Option<State<'static, P>>, P) {
+        let ev = &opts.ev;
+        let gate = crate::engine::gate::Gate::new();
+        let problem = match ev {
+            EvKind::Gated(..) => (self.problem)().with_instr(Instr::gated(gate.clone())),
+            _ => (self.problem)(),
+        };
         let looplog = Arc::new(Mutex::new(vec![]));
         let mut out = RunOutcome::default();
         let tmpl = self.name.to_string();
         let config = match catch(|| self.config(looplog.clone())) {
-            Ok(Ok(c)) => c,
+            Ok(Ok(c)) => {
+                if opts.cloned {
+                    c.clone()
+                } else {
+                    c
+                }
+            }
             Ok(Err(e)) => {
                 out.result = Err(format!("construction failed: {:#}", e));
                 if flags.c16 {
@@ -402,10 +502,14 @@ where
         };
         let run = || {
             config.optimize_with(&problem, |st| {
-                st.insert(scripted_random(0));
+                match opts.rng {
+                    RngKind::Scripted => st.insert(scripted_random(0)),
+                    RngKind::Real(seed) => st.insert(mahf::Random::new(seed)),
+                };
                 match ev {
                     EvKind::Sequential => st.insert_evaluator(Sequential::<P>::new()),
                     EvKind::Parallel(_) => st.insert_evaluator(Parallel::<P>::new()),
+                    EvKind::Gated(pool, threads, errors) => st.insert_evaluator(GatedEval::<P> { pool: pool.clone(), threads: *threads, gate: gate.clone(), errors: errors.clone(), _p: std::marker::PhantomData }),
                 }
                 st.insert(obs);
                 if let Some(s) = &self.setup {
@@ -415,7 +519,7 @@ where
             })
         };
         let r = match ev {
-            EvKind::Sequential => catch(run),
+            EvKind::Sequential | EvKind::Gated(..) => catch(run),
             EvKind::Parallel(k) => {
                 let pool = rayon::ThreadPoolBuilder::new().num_threads(*k).build().unwrap();
                 pool.install(|| catch(run))
@@ -505,6 +609,9 @@ where
     }
     fn run(&self, flags: Flags, ev: &EvKind) -> RunOutcome {
         self.run_full(flags, ev, None).0
+    }
+    fn run_with(&self, flags: Flags, opts: &RunOpts) -> RunOutcome {
+        self.run_opts(flags, opts, None).0
     }
     fn ron(&self) -> Result<String, String> {
         let c = self.config(Arc::new(Mutex::new(vec![]))).map_err(|e| format!("{:#}", e))?;
